@@ -99,7 +99,10 @@ def run_concrete(c, p, values, rtol=1e-7, atol=1e-9):
     except symrun._ContractReturn:
         pass
     except symrun.Reject:
-        return None
+        # a `require` constrains the ensures stated AFTER it only: an ensure that was already false when
+        # the sample was rejected is a counterexample to that ensure
+        bad = {k: v for k, v in ctx.results.items() if v is False}
+        return bad or None
     return ctx.results
 
 
@@ -226,17 +229,31 @@ def run_job(args):
         lem = path.lemma_idx
         hyps0 = hbase + [f for i, f in enumerate(path.assume) if i not in lem]
         st, _, _, _ = symrun.solve(hyps0, timeout_s=5)
+        max_nass = None
         if st == "unsat":
-            # an explored path whose condition is in fact infeasible (the branch solver timed
-            # out): it carries no obligations; the job must still have a feasible path
-            info["infeasible_paths"] += 1
-            continue
+            # the hypotheses of the whole path are contradictory.  A `require` constrains only the
+            # ensures stated after it, so the ensures stated BEFORE the contradicting require still
+            # carry obligations: keep those whose own prefix of the assumptions is satisfiable
+            for n in sorted({o[2] for o in path.obls}):
+                hp = hbase + [f for i, f in enumerate(path.assume[:n]) if i not in lem]
+                s2, _, _, _ = symrun.solve(hp, timeout_s=5)
+                if s2 == "unsat":
+                    break
+                max_nass, st = n, s2
+            if max_nass is None:
+                # an explored path whose condition is in fact infeasible (the branch solver timed
+                # out): it carries no obligations; the job must still have a feasible path
+                info["infeasible_paths"] += 1
+                continue
+            info["truncated_paths"] = info.get("truncated_paths", 0) + 1
         info["canaries"] += 1          # "false" is not provable from this path's hypotheses
         info["canaries_ok"] += 1
         if st == "sat":
             info["covers"] += 1
         feasible_with_obls += 1
         for oi, (name, post, nass, using) in enumerate(path.obls):
+            if max_nass is not None and nass > max_nass:
+                continue            # stated after the contradicting require: vacuous on this path
             if confirmed >= 3:
                 ent = per_name.setdefault(name, {"status": SKIPPED, "t": 0.0, "backends": set(),
                                                  "detail": "not attempted: earlier obligations of this "
